@@ -229,3 +229,43 @@ reg("C14",
     level_text="Gallina model of the http targeter's line state machine (bufio.ScanLines, the peeking scanner with its empty-string sentinel, comment/blank/header/@body handling, default merge) and of the JSON targeter's line loop and merge; theorems so far: json_defaults_merge (see DESIGN for the http decode-render theorem status); the model and the intent/independence checker defined in Coq are run against the real targeters on every run, earlier targets and the defaults being re-inspected after later calls.",
     technique="Coq model of the parser state machine + differential correspondence with aliasing re-inspection",
     timeout={"quick": 600, "thorough": 3000})
+
+_ATTACK_RULE = ("scripted attacks of the real Attacker under testing/synctest (virtual time; after every environment action the "
+                "harness waits for quiescence and snapshots: virtual now, pacer consultations and the pending one's arguments, "
+                "transport entries (seq, instant), result taken / channel closed, Stop return values, targeter failures). "
+                "Exhaustive part: every sequence of up to 4 (quick) / 5 (thorough) abstract operations over {answer pacer wait 0, "
+                "answer wait 5ms and let it pass, pacer stop, complete oldest, complete newest, consume, Stop} for initial workers "
+                "0..3 x max workers 1..3; random part: 400 / 6000 scripts of 5..200 operations (also negative waits, waits cut "
+                "short, idle advances) with up to 64 workers, durations and a failing targeter call; every script ends by stopping, "
+                "completing and draining the attack. Every script is a non-trivial case; distinct = distinct wire content")
+_ATTACK_ASSUME = ["the model is an LTS at the granularity of channel operations; interleavings inside the Go runtime between two quiescent points are chosen by the scheduler, not enumerated on the implementation",
+                  "net/http client and the transport are replaced by a scripted RoundTripper; testing/synctest (go1.26.8) provides virtual time and quiescence",
+                  "liveness clauses assume responses complete and the consumer keeps receiving (the finishing phase of every script does both)"]
+_ATTACK_TB = ["go1.26.8 toolchain for the synctest test binary (harness/sync); /repo sources are the same working tree"]
+_ATTACK_DIFF = {90: "the real trace is not a run of the model: no model state survives the step with the given index"}
+
+reg("C02", runner="sync", rule=_ATTACK_RULE, diffs=_ATTACK_DIFF,
+    clauses={201: "a result was delivered twice", 202: "a result was delivered for a hit that never started", 203: "a result was delivered after the channel was closed",
+             204: "channel closed before every started hit delivered its result", 205: "more than one Stop call reported that it initiated the stop",
+             206: "a goroutine of the attack was left behind", 207: "the attack panicked", 208: "the attack did not end after Stop with completing responses and a draining consumer",
+             209: "a Stop call after the end reported that it initiated the stop"},
+    assumptions=_ATTACK_ASSUME, trusted_base=_ATTACK_TB,
+    level_text="seqs_exact, close_after_all, close_at_most_once, ends_cleanly_progress/terminates/final, stop_exactly_one(+_when_ended), stop_once_flag_exactly_one are proved in Coq as invariants over every label sequence of an executable LTS of Attack/attack/hit/Stop (all interleavings, any length, any configuration with max-workers >= 1); the LTS is tied to the code by trace acceptance: scripted real attacks under synctest must be runs of the model (verified-by-construction search over model states), and the property's clauses are also decided directly on every observed trace.",
+    technique="Coq inductive invariants over an LTS (all schedules) + trace acceptance of real runs under synctest",
+    timeout={"quick": 900, "thorough": 3000})
+reg("C03", runner="sync", rule=_ATTACK_RULE, diffs=_ATTACK_DIFF,
+    clauses={301: "more hits started-and-not-consumed than max-workers", 302: "a released hit did not start although fewer than max-workers were busy"},
+    assumptions=_ATTACK_ASSUME, trusted_base=_ATTACK_TB,
+    level_text="inflight_le_max, free_capacity_used and busy_then_next_consume are proved in Coq over every reachable state of the attack LTS (all interleavings, all (workers, max-workers) with max >= 1); tie by trace acceptance of scripted real attacks under synctest, clauses also decided on every snapshot.",
+    technique="Coq inductive invariants over an LTS + trace acceptance under synctest",
+    timeout={"quick": 900, "thorough": 3000})
+reg("C04", runner="sync", rule=_ATTACK_RULE, diffs=_ATTACK_DIFF,
+    clauses={401: "pacer consulted with wrong hits/elapsed arguments", 402: "more hits started than the pacer had released by then (a hit started before its wait was over)",
+             403: "pacer consulted after the duration had elapsed", 404: "more than one hit released after the deadline", 405: "a hit was released (or the pacer consulted) after the pacer said stop"},
+    assumptions=_ATTACK_ASSUME, trusted_base=_ATTACK_TB,
+    level_text="pace_args_hits, pace_args_elapsed, no_early_hit, deadline and stop_means_stop are proved in Coq as trace properties of every run of the attack LTS with virtual time (adversarial pacer, any durations); tie by trace acceptance of scripted real attacks under synctest with exact virtual timestamps.",
+    technique="Coq inductive invariants over a timed LTS + trace acceptance under synctest",
+    timeout={"quick": 900, "thorough": 3000})
+
+for _p in ("C02", "C03", "C04"):
+    PROPS[_p]["exhaustive"] = "the exhaustive part only: all sequences of up to 4 (quick) / 5 (thorough) abstract operations for initial workers 0..3 x max-workers 1..3; the random long scripts are a sample"
